@@ -46,8 +46,8 @@ struct Registry {
 };
 typedef void (*RegFn)(Registry &);
 
-enum Kind : uint32_t { K_SCALAR = 0, K_TENSOR, K_EXPR, K_SELF_EXPR, K_METHOD, K_ELEM, K_FIXVIEW, K_DYNVIEW, K_REDUCE, K_READ_EXPR, K_MATMUL, K_REWRAP, K_SOURCE_WRITE, K_CTOR_LAYOUT, K_MAP_COPY, K_CROSS_HANDLE, K_NKINDS };
-static const char *const KINDNAME[K_NKINDS] = {"scalar", "tensor", "expr", "self_expr", "method", "elem", "fixview", "dynview", "reduce", "read_expr", "matmul", "rewrap", "source_write", "ctor_layout", "map_copy", "cross_handle"};
+enum Kind : uint32_t { K_SCALAR = 0, K_TENSOR, K_EXPR, K_SELF_EXPR, K_METHOD, K_ELEM, K_FIXVIEW, K_DYNVIEW, K_REDUCE, K_READ_EXPR, K_MATMUL, K_REWRAP, K_SOURCE_WRITE, K_CTOR_LAYOUT, K_MAP_COPY, K_CROSS_HANDLE, K_BAD_ELEM, K_NKINDS };
+static const char *const KINDNAME[K_NKINDS] = {"scalar", "tensor", "expr", "self_expr", "method", "elem", "fixview", "dynview", "reduce", "read_expr", "matmul", "rewrap", "source_write", "ctor_layout", "map_copy", "cross_handle", "bad_elem"};
 
 } // namespace mapsim
 #endif
